@@ -460,8 +460,64 @@ func loadOfField(v ssa.Value, f *types.Var) bool {
 		if st, ok := x.X.Type().Underlying().(*types.Struct); ok {
 			return st.Field(x.Field) == f
 		}
+	case *ssa.Call:
+		return f != nil && getterField(x) == f
 	}
 	return false
+}
+
+// getterField: the call invokes a method whose whole body is `return recv.f` (one block, no parameters besides the
+// receiver): a read of field f at the point of the call. Returns f, else nil.
+func getterField(call *ssa.Call) *types.Var {
+	h := call.Call.StaticCallee()
+	if h == nil || h.Blocks == nil || len(h.Blocks) != 1 || h.Signature.Recv() == nil || len(h.Params) != 1 || len(call.Call.Args) != 1 {
+		return nil
+	}
+	var res ssa.Value
+	for _, in := range h.Blocks[0].Instrs {
+		switch x := in.(type) {
+		case *ssa.FieldAddr, *ssa.Field, *ssa.DebugRef:
+		case *ssa.UnOp:
+			if x.Op != token.MUL {
+				return nil
+			}
+		case *ssa.Return:
+			if len(x.Results) != 1 {
+				return nil
+			}
+			res = x.Results[0]
+		default:
+			return nil
+		}
+	}
+	if res == nil {
+		return nil
+	}
+	var fv *types.Var
+	var base ssa.Value
+	switch x := res.(type) {
+	case *ssa.UnOp:
+		fa, ok := x.X.(*ssa.FieldAddr)
+		if !ok {
+			return nil
+		}
+		fv, _ = fieldAddrOf(fa)
+		base = fa.X
+	case *ssa.Field:
+		if st, ok := x.X.Type().Underlying().(*types.Struct); ok {
+			fv = st.Field(x.Field)
+		}
+		base = x.X
+		if u, ok := base.(*ssa.UnOp); ok && u.Op == token.MUL {
+			base = u.X
+		}
+	default:
+		return nil
+	}
+	if base != ssa.Value(h.Params[0]) {
+		return nil
+	}
+	return fv
 }
 
 // loadedField returns the field a value is loaded from, or nil.
@@ -477,6 +533,8 @@ func loadedField(v ssa.Value) *types.Var {
 		if st, ok := x.X.Type().Underlying().(*types.Struct); ok {
 			return st.Field(x.Field)
 		}
+	case *ssa.Call:
+		return getterField(x)
 	}
 	return nil
 }
@@ -1648,4 +1706,45 @@ func allCallsUnderFlag(p *Prog, fn *ssa.Function, flag *types.Var) bool {
 		}
 	}
 	return true
+}
+
+// pureForwardOf: fn is a named function whose whole body is `return h(args...)` for a function h of the same package
+// that is not on the pinned tree (a refactoring moved the body into h, e.g. to pass a field as a parameter): returns h.
+func pureForwardOf(fn *ssa.Function) *ssa.Function {
+	if fn == nil || fn.Parent() != nil || len(fn.Blocks) != 1 {
+		return nil
+	}
+	var only *ssa.Call
+	n := 0
+	for _, in := range fn.Blocks[0].Instrs {
+		switch x := in.(type) {
+		case *ssa.Call:
+			n++
+			only = x
+		case *ssa.Store, *ssa.Go, *ssa.Defer, *ssa.MapUpdate, *ssa.Send:
+			return nil
+		}
+	}
+	if n != 1 {
+		return nil
+	}
+	h := only.Call.StaticCallee()
+	if h == nil || h.Blocks == nil || !isHelperOf(fn, h) || knownOnPinnedTree(h) {
+		return nil
+	}
+	ret, ok := fn.Blocks[0].Instrs[len(fn.Blocks[0].Instrs)-1].(*ssa.Return)
+	if !ok {
+		return nil
+	}
+	for i, r := range ret.Results {
+		v := stripConv(r)
+		if v == ssa.Value(only) {
+			continue
+		}
+		if ex, isEx := v.(*ssa.Extract); isEx && ex.Tuple == ssa.Value(only) && ex.Index == i {
+			continue
+		}
+		return nil
+	}
+	return h
 }
